@@ -8,5 +8,31 @@ import txflow
 
 SPEC = txflow.make_spec("C03", "histories over 3-7 txs / 2-5 shared outpoints / 3 sources with inv, blocks (also refused ones), delay checks, clock advances, restarts, in-sync toggles; all arrival orders x sources of a 3-tx conflict pattern; confirmation of seen/unseen conflicting txs; restart at every position of a reference history; distinct = distinct (cfg, ops)")
 
+# Completeness under back-pressure on the real run loop (harness component "shutdown", scenarios and monitor of
+# gen/c19.py / model/Shutdown.v): while the tx thread is busy (a held handler / fetcher call) the peer sends more
+# distinct relevant txs than the tx channel holds; every one of them must be delivered as a new tx once the
+# thread goes on (TxChannel.Add blocks when the channel is full, it never drops).
+import c19
+
+_race_extra = SPEC["extra"]
+_flow_keyfn = SPEC["keyfn"]
+
+
+def _extra(tier, rng, workdir):
+    a = _race_extra(tier, rng, workdir)
+    b = c19.completeness_scenarios(tier, rng, workdir)
+    out = {"failures": list(a.get("failures", [])) + list(b.get("failures", [])),
+           "red": list(a.get("red", [])) + list(b.get("red", [])),
+           "evaluations": a.get("evaluations", 0) + b.get("evaluations", 0),
+           "coverage": dict(a.get("coverage", {}))}
+    out["coverage"].update(b.get("coverage", {}))
+    return out
+
+
+SPEC["extra"] = _extra
+SPEC["keyfn"] = lambda rc: c19.keyfn(rc) if rc.get("suite") == "shutdown_complete" else _flow_keyfn(rc)
+SPEC["assumptions"] = list(SPEC["assumptions"]) + [
+    "completeness under back-pressure is checked end to end on the real run loop (gen/c19.py completeness_scenarios): a held handler, 101-150 distinct relevant txs from the peer while in sync, all delivered after the release; in the model this is the channel semantics (props/C19.v C19_add_never_drops, C19_only_consumer_takes)"]
+
 if __name__ == "__main__":
     checklib.run_check(SPEC)
